@@ -319,3 +319,38 @@ Definition reopen_bucket (b : bucket) : bucket :=
   {| b_files := filter (fun f => (vf_fid f =? b_active b) || negb (match vf_recs f with [] => true | _ => false end)) (b_files b);
      b_active := b_active b; b_off := b_off b |}.
 Definition db_reopen (d : db) : db := {| d_lsm := reopen (d_lsm d); d_vl := map reopen_bucket (d_vl d) |}.
+
+(** * GC against a concurrent writer (schedules on Base/Sched.v)
+
+    Two threads.  The GC thread runs [rewrite] in two atomic steps, split at
+    the yield point "vlog.gc.rewrite.decided": (1) iterate the file and decide
+    which entries to move, (2) write them back and possibly remove the file.
+    The writer thread sends its write requests one per step (a request is
+    applied atomically by the commit worker). *)
+Inductive gc_pc := GcStart | GcDecided (wb : option (list rec)) | GcDone.
+Inductive gthread := TGc | TWr.
+
+Record gstate := { g_db : db; g_pc : gc_pc; g_todo : list (list rec); g_acked : list rec }.
+
+Definition gc_step2 (c : cfg) (d : db) (bk fid : N) (o : option (list rec)) : db :=
+  match o with
+  | None => d
+  | Some wb => if 62 <? N.of_nat (length wb) then d else fst (gc_finish c d bk fid wb)
+  end.
+
+Definition gtstep (c : cfg) (now bk fid nseq : N) (g : gstate) (t : gthread) : option gstate :=
+  match t with
+  | TGc =>
+      match g_pc g with
+      | GcStart => Some {| g_db := g_db g; g_pc := GcDecided (gc_decide now (g_db g) bk fid nseq);
+                           g_todo := g_todo g; g_acked := g_acked g |}
+      | GcDecided o => Some {| g_db := gc_step2 c (g_db g) bk fid o; g_pc := GcDone;
+                               g_todo := g_todo g; g_acked := g_acked g |}
+      | GcDone => None
+      end
+  | TWr =>
+      match g_todo g with
+      | [] => None
+      | b :: rest => Some {| g_db := db_write c (g_db g) b; g_pc := g_pc g; g_todo := rest; g_acked := g_acked g ++ b |}
+      end
+  end.
